@@ -126,6 +126,48 @@ def ob_waiter_vs_idle(w: int, it: int) -> bool:
     return obs["status"] == "completed" and obs["result"] == "timeout"
 
 
+class _TwoWaits(Workflow):
+    """two waits in a row, nobody answers: the first timeout wakes the step, which parks again (a second idle period begins while the
+    release timer of the first one is still pending)"""
+
+    @step
+    async def s0(self, ctx: Context, ev: StartEvent) -> StopEvent:
+        got = []
+        for wid, w in (("w1", self.w1), ("w2", self.w2)):
+            try:
+                await ctx.wait_for_event(Resp, waiter_id=wid, timeout=w)
+                got.append("answered")
+            except asyncio.TimeoutError:
+                got.append("timeout")
+        return StopEvent(result="+".join(got))
+
+
+def _two_waits(w1: int, w2: int):
+    wf = _TwoWaits(timeout=None)
+    wf.w1, wf.w2 = w1, w2
+    return wf
+
+
+@obligation(quick=240, thorough=600, partitions_quick=[f"it == {i}" for i in (2, 3, 4)], partitions_thorough=[f"it == {i} and w1 == {w}" for i in (2, 3, 4, 5) for w in (1, 2, 3, 4)],
+            what="two wait_for_event timeouts in a row, each SHORTER than idle_timeout (so outside the class of KF-C14-1), nobody answers: the "
+                 "second idle period starts while the first period's release timer is still pending — both TimeoutErrors are delivered and "
+                 "the handler completes ('timeout+timeout'); the run is not released on the first period's stale timer",
+            bounds={"w1, w2": "1..it-1", "idle_timeout": "2..4 (thorough 5)"})
+def ob_two_waits_vs_idle(it: int, w1: int, w2: int) -> bool:
+    """
+    pre: 2 <= it <= IT2MAX and 1 <= w1 < it and 1 <= w2 < it
+    post: _
+    """
+    it, w1, w2 = conc(it, 2, 5), conc(w1, 1, 4), conc(w2, 1, 4)
+    obs = run_first(lambda: _two_waits(w1, w2), idle_timeout=it, horizon=w1 + w2 + it + 6)
+    if obs["errors"] or obs["loop_exceptions"]:
+        return False
+    return obs["status"] == "completed" and obs["result"] == "timeout+timeout" and obs["aborts"] == 0
+
+
+IT2MAX = B(4, 5)
+
+
 def _crash_index(ticks, which: int) -> int:
     """Number of ticks that survive: up to and including the step result that started the timer
     (which = 0: the failed result of s1 that was granted a delayed retry; 1: the result of s0 that registered the waiter)."""
